@@ -25,6 +25,7 @@ import json
 import random
 
 CMDS = ("continue", "fail", "noop", "retry")
+RETRY_CMD = "retry"
 BAD_KINDS = ("undef", "key", "type", "func")
 
 
